@@ -4,4 +4,3 @@ import Gleece.Properties.C13
 #print axioms Gleece.Session.sorted_perm_eq
 #print axioms Gleece.Session.sortNat_sorted
 #print axioms Gleece.Order.sorts_in_place
-#print axioms Gleece.IR.spec_engine_independent
